@@ -131,6 +131,11 @@ def audit_phase(res, binary, family, scenarios, seed, max_payload):
             if r["timeout"]:
                 where = r["crashed_in"]
                 verdict = "unknown"
+                if family in hung_reported:
+                    # one confirmed non-terminating scenario of this family is the verdict; the other shards that
+                    # hit the watchdog are not triaged one by one (60 s of CPU each)
+                    res.inconclusive.append(f"audit shard {shard} ({family}) also hit the wall-clock watchdog in scenario {where}; not triaged: a non-terminating scenario of this family is already reported")
+                    continue
                 if where:
                     alone = [binary, "--seed", str(seed), "--scenarios", str(scenarios), "--family", family, "--only", where[0], "--max-payload", str(max_payload)]
                     verdict = confirm_nontermination(alone)
